@@ -30,7 +30,7 @@ HOSTS = ["a.com", "www.a.co.uk", "A.Com", "b.a.compute.amazonaws.com", "foo.ck",
          "svc.firenet.ch", "a-b.example.org", "127.0.0.1", "WWW.Example.ORG", "cafe.be", "[2001:DB8::A]",
          "straße.de", "x.ſ.co.uk", "ΟΔΌΣ.gr", "httpbin.org", "https.example.org", "localhost.example.com", "10.0.0.1.nip.io", "my_shop.example.com", "bücher.xn--p1ai", "github.io", "dead.beef.cafe.be"]
 PORTS = ["", ":8080", ":80", ":", ":0080", ":65535"]
-PATHS = ["", "/", "/a", "/a/", "/a//b", "//", "/a/b/c", "/a:b@c", "/a b", "/é/%C3%A9", "/a/./../b", "///", "/r/http://x.y/z"]
+PATHS = ["/" + "/".join("s%d" % i for i in range(40)), "/" + "/" * 35 + "x", "", "/", "/a", "/a/", "/a//b", "//", "/a/b/c", "/a:b@c", "/a b", "/é/%C3%A9", "/a/./../b", "///", "/r/http://x.y/z"]
 QUERIES = ["", "?", "?a=1", "?a=1&b", "?x:y@z", "?a=?b/c", "?é=%20", "?to=http://o.org/p"]
 FRAGS = ["", "#", "#f", "#/route?x", "#a#b", "#:@"]
 DIMS = [SCHEMES, USERINFO, HOSTS, PORTS, PATHS, QUERIES, FRAGS]
